@@ -330,9 +330,9 @@ Proof. eexists. split; [vm_compute; reflexivity|]. split; [vm_compute; reflexivi
    Curves, GradientMap, vector paths + VectorMaskSetting, Patterns (byte lists, codec_ok).  For the descriptor family
    (DescriptorBlock / DescriptorBlock2, ColorLookup, VectorStrokeContentSetting, LinkedLayer and every descriptor value,
    any depth)
-   under the exact guard [dguard]: finding F-C02-7. *)
+   unconditionally since /repo 708c13e (before: finding F-C02-7, [descriptor_key_refuted_before_708c13e]). *)
 From PsdV Require Import Psd.Typed Psd.Effects Psd.Descriptor Psd.Adjust Psd.Vector Psd.Patterns Psd.ResavePayload.
-From PsdV Require Psd.Linked.
+From PsdV Require Psd.Linked Psd.Legacy.
 
 Theorem effects_layer_resave : forall b l s n,
   read_effects b = Ok l -> write_effects l = Ok (s, n) -> read_effects s = Ok l.
@@ -368,34 +368,39 @@ Proof. exact patterns_resave. Qed.
 Print Assumptions patterns_payload_resave.
 
 (* the descriptor family: every value, nested to any depth.  The value is re-written under the term set as it is AFTER
-   the read (descriptor._TERMS is global and grows on read) *)
+   the read (descriptor._TERMS is global and grows on read).  Since /repo 708c13e unconditional, given only that the
+   term table the read starts from is well formed (every term 4 bytes: true of psd_tools.terminology) *)
 Theorem descriptor_read_wf : forall units fuel t os b d t' r,
-  read_dval units fuel t os b = Ok (d, t', r) -> ostype_of d = os /\ (dkeys d = true -> wf_dval units d = true).
-Proof. intros units fuel t os b d t' r H. exact (read_dval_wf units fuel t os b d t' r H). Qed.
+  read_dval units fuel t os b = Ok (d, t', r) ->
+  ostype_of d = os /\ wf_dval units d = true /\ (wf_terms t = true -> wf_terms t' = true).
+Proof.
+  intros units fuel t os b d t' r H. destruct (read_dval_wf units fuel t os b d t' r H) as [H1 H2].
+  destruct (read_dval_keys units fuel t os b d t' r H) as [H3 H4]. auto.
+Qed.
 Print Assumptions descriptor_read_wf.
 Theorem descriptor_resave : forall units fuel t os b d t' r s n rest,
-  read_dval units fuel t os b = Ok (d, t', r) -> dkeys d = true -> wf_terms t' = true ->
+  read_dval units fuel t os b = Ok (d, t', r) -> wf_terms t = true ->
   write_dval t' d = Ok (s, n) -> read_dval units (S (length s)) t' os (s ++ rest) = Ok (d, t', rest).
-Proof. exact dval_resave. Qed.
+Proof. exact dval_resave_all. Qed.
 Print Assumptions descriptor_resave.
 Theorem descriptor_block_resave : forall units two t b blk t' pad s n,
-  0 < pad -> read_dblock units two t b = Ok (blk, t') -> dguard t' (dblock_val blk) = true ->
+  0 < pad -> read_dblock units two t b = Ok (blk, t') -> wf_terms t = true ->
   write_dblock t' pad blk = Ok (s, n) -> read_dblock units two t' s = Ok (blk, t').
-Proof. exact dblock_resave. Qed.
+Proof. exact dblock_resave_all. Qed.
 Print Assumptions descriptor_block_resave.
 Theorem color_lookup_payload_resave : forall units t b ver dv d t' pad s n,
-  read_color_lookup units t b = Ok (ver, dv, d, t') -> dguard t' d = true ->
+  read_color_lookup units t b = Ok (ver, dv, d, t') -> wf_terms t = true ->
   write_color_lookup t' pad ver dv d = Ok (s, n) -> read_color_lookup units t' s = Ok (ver, dv, d, t').
-Proof. exact color_lookup_resave. Qed.
+Proof. exact color_lookup_resave_all. Qed.
 Theorem stroke_content_resave : forall units t b key version d t' pad s n,
-  read_vscg units t b = Ok (key, version, d, t') -> dguard t' d = true ->
+  read_vscg units t b = Ok (key, version, d, t') -> wf_terms t = true ->
   write_vscg t' pad key version d = Ok (s, n) -> read_vscg units t' s = Ok (key, version, d, t').
-Proof. exact vscg_resave. Qed.
+Proof. exact vscg_resave_all. Qed.
 Print Assumptions stroke_content_resave.
 
 (* LinkedLayer (one item of 'lnkD' / 'lnk2' / 'lnk3' / 'lnkE'), versions 1..7, data / external / alias: the optional
-   fields the reader takes by version are exactly the ones the writer emits; guard = the descriptor guard on its two
-   descriptor blocks (and embedded data below 2^63 bytes) *)
+   fields the reader takes by version are exactly the ones the writer emits; [lguard] = the descriptor conditions on its
+   two descriptor blocks (they hold for every read since 708c13e, see above) and embedded data below 2^63 bytes *)
 Theorem linked_layer_resave : forall enc_s dec_s, codec_ok enc_s dec_s ->
   forall units t b l t' r pad s n tail,
     Linked.read_linked dec_s units t b = Ok (l, t', r) -> lguard t' l = true ->
@@ -404,28 +409,29 @@ Theorem linked_layer_resave : forall enc_s dec_s, codec_ok enc_s dec_s ->
 Proof. exact linked_resave. Qed.
 Print Assumptions linked_layer_resave.
 
-(* F-C02-7: a DescriptorBlock whose input ends inside its last key (an Enumerated value 'Ornt' . 'H', the length field of the
-   enum key is 0 = "a 4-byte term follows", one byte is left).  read_length_and_key takes the single byte as the key and
-   ADDS it to the term set; the writer emits it as a term (length 0) and pads the block; the re-read takes 'H\0\0\0'. *)
+(* F-C02-7 (fixed by /repo 708c13e).  A DescriptorBlock whose input ends inside its last key (an Enumerated value
+   'Ornt' . 'H': the length field of the enum key is 0 = "a 4-byte term follows", one byte is left).  The reader before the
+   fix (Psd/Legacy.v read_key_v0) took the single byte as the key and ADDED it to the term set; the writer emits it as a
+   term (length 0), the block is padded, and the re-read took 'H\0\0\0'.  The reader after the fix rejects the input. *)
 Definition w7 : list Z :=
   [0;0;0;16; 0;0;0;0; 0;0;0;0; 110;117;108;108; 0;0;0;1; 0;0;0;0; 79;114;110;116; 101;110;117;109;
    0;0;0;0; 79;114;110;116; 0;0;0;0; 72].
-Theorem descriptor_resave_refuted :
-  exists blk t' s n blk' t'', read_dblock [] false [] w7 = Ok (blk, t') /\ dguard t' (dblock_val blk) = false /\
-    dkeys (dblock_val blk) = true /\ wf_terms t' = false /\
-    write_dblock t' 4 blk = Ok (s, n) /\ read_dblock [] false t' s = Ok (blk', t'') /\ blk' <> blk /\ t'' <> t'.
+Theorem descriptor_key_refuted_before_708c13e :
+  exists k t' s n k' t'', Legacy.read_key_v0 [] [0;0;0;0; 72] = Ok (k, t', []) /\ k = [72] /\ wf_terms t' = false /\
+    write_key t' k = Ok (s, n) /\ Legacy.read_key_v0 t' (s ++ [0;0;0]) = Ok (k', t'', []) /\ k' = [72;0;0;0] /\ k' <> k.
 Proof.
-  do 6 eexists. split; [vm_compute; reflexivity|]. split; [vm_compute; reflexivity|]. split; [vm_compute; reflexivity|].
-  split; [vm_compute; reflexivity|]. split; [vm_compute; reflexivity|]. split; [vm_compute; reflexivity|].
-  split; vm_compute; discriminate.
+  do 6 eexists. split; [vm_compute; reflexivity|]. split; [reflexivity|]. split; [reflexivity|].
+  split; [vm_compute; reflexivity|]. split; [vm_compute; reflexivity|]. split; [reflexivity|discriminate].
 Qed.
-Print Assumptions descriptor_resave_refuted.
-Example descriptor_resave_satisfiable :
-  exists blk t' s n, read_dblock [] false [] (w7 ++ [114;122;110]) = Ok (blk, t') /\ dguard t' (dblock_val blk) = true /\
+Print Assumptions descriptor_key_refuted_before_708c13e.
+Example fixed_by_708c13e :
+  read_dblock [] false [] w7 = Err IOErr /\
+  exists blk t' s n, read_dblock [] false [] (w7 ++ [114;122;110]) = Ok (blk, t') /\ wf_terms t' = true /\
     write_dblock t' 4 blk = Ok (s, n) /\ read_dblock [] false t' s = Ok (blk, t').
 Proof.
+  split; [vm_compute; reflexivity|].
   do 4 eexists. split; [vm_compute; reflexivity|]. split; [vm_compute; reflexivity|].
-  split; [vm_compute; reflexivity|vm_compute; reflexivity].     (* in this order: the second goal mentions the bytes the first one computes *)
+  split; [vm_compute; reflexivity|vm_compute; reflexivity].
 Qed.
 
 (* the container level for free (Psd/Typed.v): any class reader [rd] / writer [w] pair whose values re-save, inside a
